@@ -132,7 +132,7 @@ integer_to_hex(Integer value, Result& result)
 
 // fast exponent
 template <typename Result>
-void fill_exponent(int K, Result& result)
+void fill_exponent(long long K, Result& result)
 {
     if (K < 0)
     {
@@ -170,12 +170,13 @@ template <typename Result>
 void prettify_string(const char *buffer, int length, int k, int min_exp, int max_exp, Result& result)
 {
     int nb_digits = length;
-    int offset;
+    long long offset;
     /* v = buffer * 10^k
        kk is such that 10^(kk-1) <= v < 10^kk
        this way kk gives the position of the decimal point.
+       (computed in 64 bits, nb_digits + k overflows int for exponents near the int limits)
     */
-    int kk = nb_digits + k;
+    long long kk = static_cast<long long>(nb_digits) + k;
 
     if (nb_digits <= kk && kk <= max_exp)
     {
@@ -201,7 +202,7 @@ void prettify_string(const char *buffer, int length, int k, int min_exp, int max
             result.push_back(buffer[i]);
         }
         result.push_back('.');
-        for (int i = kk; i < nb_digits; ++i)
+        for (int i = static_cast<int>(kk); i < nb_digits; ++i)
         {
             result.push_back(buffer[i]);
         }
@@ -212,7 +213,7 @@ void prettify_string(const char *buffer, int length, int k, int min_exp, int max
 
         result.push_back('0');
         result.push_back('.');
-        for (int i = 2; i < offset; ++i) 
+        for (long long i = 2; i < offset; ++i) 
             result.push_back('0');
         for (int i = 0; i < nb_digits; ++i)
         {
